@@ -214,6 +214,20 @@ def single_opcode_check(m_emu, m_gen, op, n=2, timeout_ms=20000, nan_mode='canon
                 ub.append(z3.Not(z3.substitute(nt.cond, *sub) if sub else nt.cond))
     verdict = 'equal'
     cex = None
+    # precondition for parameter-indexed loads: the documented source indices are small non-negative numbers (an index
+    # near 2^31 is outside every array); there the 32-bit index arithmetic of the generated C and the 64-bit arithmetic
+    # of the emulator coincide
+    pre = []
+    if op['name'].startswith(('loadoff', 'ldres')):
+        for v in vars_:
+            if v['kind'] == 'param' and 'operand' in v:
+                pv = g['params'][v['index']]
+                if op['name'].startswith('loadoff'):
+                    pre += [pv > -(1 << 20), pv < (1 << 20)]
+                elif v['operand'] == 1:
+                    pre += [pv >= 0, pv < (1 << 30)]
+                else:
+                    pre += [pv >= 0, pv < (1 << 16)]
     for a, c in pairs:
         if sub:
             a = z3.substitute(a, *sub)
@@ -222,6 +236,7 @@ def single_opcode_check(m_emu, m_gen, op, n=2, timeout_ms=20000, nan_mode='canon
         s = z3.Solver()
         s.set('timeout', timeout_ms)
         s.add(a != c)
+        s.add(*pre)
         r = s.check()
         if r == z3.sat and ub:
             s.add(z3.Not(z3.Or(*ub)))
